@@ -453,6 +453,34 @@ def eccMetaOfKeys (c : CryptoOps) (keys : List Bytes) (used : Nat) : PyRes RotMe
         | .error e => .error e
         | .ok _ => .ok (.ecc used keys.length (if keys.length > 1 then keys.map (c.hash a) else []))
 
+/-! ### what `create_from_yaml_config` refuses -/
+
+/-- type and size of a key file -/
+inductive KeyKind where
+  | rsa (bits : Nat)
+  | ecc (bits : Nat)
+  deriving DecidableEq, Repr, Inhabited
+
+/-- `ProtocolVersion.from_public_key` (`none` = KeyError for a size outside the tables) -/
+def versionOfKey : KeyKind → Option (Nat × Nat)
+  | .rsa bits => (lookup bits DatConsts.rsaMinorOfBits).map (fun m => (1, m))
+  | .ecc bits => (lookup bits DatConsts.eccMinorOfBits).map (fun m => (2, m))
+
+/-- The `if …: raise SPSDKValueError` tests between the look-ups and the constructor call, as far as the current source has
+    them (`DatConsts.createRefusals`): UUID of exactly 16 bytes, DCK of the type and size of the RoT key, and for the RSA / ECC
+    classes a protocol version equal to the one the RoT key implies. -/
+def createCheck (cls : Cls) (major minor uuidLen : Nat) (rot dck : KeyKind) : PyRes Unit :=
+  if DatConsts.createRefusals.contains "len(«uuid») != 16" && uuidLen != 16 then .error .spsdk
+  else if DatConsts.createRefusals.contains
+      "type(«dck_pub») is not type(«rot_pub») or «dck_pub».key_size != «rot_pub».key_size" && dck != rot then .error .spsdk
+  else if DatConsts.createRefusals.contains
+      "«class» in (DebugCredentialCertificateRsa, DebugCredentialCertificateEcc) and «version» != ProtocolVersion.from_public_key(public_key=«rot_pub»)"
+      && (cls == .rsa || cls == .ecc) then
+    match versionOfKey rot with
+    | none => .error .other
+    | some v => if v != (major, minor) then .error .spsdk else .ok ()
+  else .ok ()
+
 /-! ### signing -/
 
 def sigAlg (pss : Bool) (dc : DC) : SigAlg :=
